@@ -84,6 +84,10 @@ def _vec(v):
 def _circle(rng):
     R = 10 ** rng.uniform(-1, 2)
     c = [0.0, 0.0, 0.0] if rng.random() < 0.15 else [rng.uniform(-10, 10) for _ in range(3)]
+    if rng.random() < 0.08:
+        # a small feature of a geo-referenced model: radius of decimetres, coordinates of kilometres
+        R = 10 ** rng.uniform(-1.0, -0.5)  # (not below the 0.1 of the ordinary class: arc_length_3point has an absolute 1e-18 guard)
+        c = [rng.choice([-1, 1]) * rng.uniform(5000, 9000) for _ in range(3)]
     if rng.random() < 0.2:
         n = [0.0, 0.0, 0.0]
         n[rng.randrange(3)] = rng.choice([-1, 1]) * rng.choice([1.0, 1.0, 0.25, 3.0])
@@ -112,6 +116,10 @@ def _theta(rng, lo=0.02, excl=1e-4):
 
 
 def _base(kind, R, c, n, u, theta):
+    if max(abs(x) for x in c) > 1000 and abs(abs(theta) - math.pi) < 0.05:
+        # far from the origin the end points carry a rounding error of ~1e-12; next to a half circle that error, divided by
+        # the tiny deviation from pi, decides the arc's plane - ill-conditioned input, kept out of the far class
+        theta = math.copysign(2.0 + 0.9 * (abs(theta) - math.pi) / 0.05, theta)
     p1 = geom.arr(c) + R * geom.arr(u)
     p2 = geom.rotate(p1, n, theta, c)
     return {"kind": kind, "route": "direct", "R": R, "c": _vec(c), "n": _vec(n), "u": _vec(u), "theta": theta,
